@@ -16,7 +16,7 @@ ToSet(q) == {q[i] : i \in DOMAIN q}
 
 Zs == [s \in Stages |-> 0]
 RunInit0 == /\ status = [s \in Stages |-> "W"] /\ gerr = [g \in Graphs |-> FALSE]
-            /\ nl = [s \in Stages |-> "none"] /\ by = Zs
+            /\ nl = [s \in Stages |-> "none"] /\ by = Zs /\ want = [s \in Stages |-> {}] /\ twice = FALSE
             /\ gpc = [s \in Stages |-> "none"] /\ rpc = [s \in Stages |-> "none"]
             /\ pt = [s \in Stages |-> "start"] /\ role = [s \in Stages |-> "none"]
             /\ done = Zs /\ rfail = [s \in Stages |-> FALSE] /\ ran = [s \in Stages |-> {}]
@@ -34,7 +34,7 @@ TReset == /\ Is("cfg") /\ (IF l = 1 THEN TRUE ELSE Log[l - 1].e = "end") /\ Ev.n
           /\ upFails' = [c \in Ctxs |-> Ev.upFails[c]]
           /\ gr' = [s \in Stages |-> Ev.gr[s]] /\ inc' = [s \in Stages |-> Ev.inc[s]]
           /\ status' = [s \in Stages |-> "W"] /\ gerr' = [g \in Graphs |-> FALSE] /\ loop' = TRUE
-          /\ nl' = [s \in Stages |-> "none"] /\ by' = Zs
+          /\ nl' = [s \in Stages |-> "none"] /\ by' = Zs /\ want' = [s \in Stages |-> {}] /\ twice' = FALSE
           /\ gpc' = [s \in Stages |-> "none"] /\ rpc' = [s \in Stages |-> "none"]
           /\ pt' = [s \in Stages |-> "start"] /\ role' = [s \in Stages |-> "none"]
           /\ done' = Zs /\ rfail' = [s \in Stages |-> FALSE] /\ ran' = [s \in Stages |-> {}]
@@ -66,7 +66,7 @@ TDownEnd == /\ Is("CmdEnd") /\ Ev.role = "down" /\ DownEnd(Ev.c) /\ Consume
 TDone == /\ Is("done") /\ loop /\ (\A s \in Stages : gr[s] = 0 => status[s] \notin {"W", "R"} /\ gpc[s] \in {"none", "fin"})
          /\ gerr[0] = Ev.err /\ (\A s \in Stages : status[s] = Ev.final[s])
          /\ loop' = FALSE /\ Consume
-         /\ UNCHANGED <<cfgv, status, gerr, nl, by, gpc, rpc, pt, role, done, rfail, ran, upst, dn>>
+         /\ UNCHANGED <<cfgv, status, gerr, want, twice, nl, by, gpc, rpc, pt, role, done, rfail, ran, upst, dn>>
 \* the process has exited: every context that was used has been taken down
 TEnd == /\ Is("end") /\ AllOver /\ Consume /\ UNCHANGED vars
 TNext == TReset \/ TStLoop \/ TStDupCancel \/ TStPublish \/ TEnter \/ TRet \/ TNRet \/ TRunEnter \/ TRunExit \/ TCmdStart \/ TCmdEnd
